@@ -11,6 +11,7 @@ declare -A CHECKS=(
  [yens-root-vertices-not-cut]="C13 C01"
  [yens-spur-state-not-retraversed]="C13 C03"
  [yens-candidates-forgotten]="C13"
+ [c19-lock-released-before-newline]="C19"
 )
 for n in "${!CHECKS[@]}"; do
   /verif/tools/try_mutant.sh /verif/seeded/regress/$n.diff $TIER ${CHECKS[$n]} 2>&1 | sed "s/^/$n: /" | grep -v "^$n:    "
